@@ -233,6 +233,59 @@ func (g *gen) value(depth int) *val {
 	}
 }
 
+// inlineDoc: a whole document in the inline layout of the model's emit_inline
+// (Toml/RoundTrip.v): root key-values with one-segment keys whose values are
+// arrays and inline tables nested up to depth 4, keys distinct within every
+// table (the model's wf).  With dup set, one table gets a key twice (the
+// decoder must report it).
+func (g *gen) inlineDoc(dup bool) []event {
+	var value func(depth int) *val
+	fields := func(depth int) ([][]string, []*val) {
+		used := map[string]bool{}
+		var ks [][]string
+		var vs []*val
+		n := g.r.Intn(4)
+		for i := 0; i < n; i++ {
+			k := g.key()
+			if used[k] {
+				continue
+			}
+			used[k] = true
+			ks = append(ks, []string{k})
+			vs = append(vs, value(depth-1))
+		}
+		if dup && len(ks) > 0 && g.r.Chance(1, 2) {
+			dup = false
+			ks = append(ks, ks[g.r.Intn(len(ks))])
+			vs = append(vs, value(0))
+		}
+		return ks, vs
+	}
+	value = func(depth int) *val {
+		switch k := g.r.Intn(10); {
+		case k < 4 || depth <= 0:
+			return g.leaf()
+		case k < 7:
+			v := &val{kind: 'A'}
+			n := g.r.Intn(4)
+			for i := 0; i < n; i++ {
+				v.arr = append(v.arr, value(depth-1))
+			}
+			return v
+		default:
+			v := &val{kind: 'I'}
+			v.keys, v.vals = fields(depth)
+			return v
+		}
+	}
+	ks, vs := fields(5)
+	var es []event
+	for i := range ks {
+		es = append(es, event{'K', ks[i], vs[i]})
+	}
+	return es
+}
+
 // soup: a random sequence of events over a small key alphabet; many are
 // rejected (duplicates, redeclarations), many are valid.
 func (g *gen) soup() []event {
